@@ -22,6 +22,19 @@ def stateless (toks : List String) : Option String :=
   Driver.Tok.handle toks <|> Driver.PodD.handle toks <|> Driver.DiscD.handle toks <|>
   Driver.ErrsD.handle toks <|> Driver.SeedsD.handle toks
 
+/-- Properties say "returns an error", not which: every `err|CODE` in an answer becomes `err` in the
+    compared part and the codes move behind the ` | ` separator (fidelity note), exactly as the
+    harness does with the implementation's answers. -/
+def demoteCodes (s : String) : String :=
+  match s.splitOn "err|" with
+  | [] => s
+  | first :: rest =>
+    let step (acc : String × List String) (p : String) : String × List String :=
+      let code := p.toList.takeWhile Char.isAlphanum
+      (acc.1 ++ "err" ++ String.ofList (p.toList.drop code.length), acc.2 ++ [String.ofList code])
+    let (main, codes) := rest.foldl step (first, [])
+    if codes.isEmpty then main else main ++ " | " ++ ",".intercalate codes
+
 def dispatch (st : DState) (line : String) : DState × String :=
   let toks := (line.trimAscii.toString.splitOn " ").filter (· ≠ "")
   match stateless toks with
@@ -36,10 +49,10 @@ def dispatch (st : DState) (line : String) : DState × String :=
         ({ st with res := r' }, s)
       | none =>
         match Driver.TlvD.handle st.tlv toks with
-        | some (t', s) => ({ st with tlv := t' }, s)
+        | some (t', s) => ({ st with tlv := t' }, demoteCodes s)
         | none =>
           match Driver.VarLenD.handle st.vl toks with
-          | some (v', s) => ({ st with vl := v' }, s)
+          | some (v', s) => ({ st with vl := v' }, demoteCodes s)
           | none =>
             match toks, st.res, st.vl with
             | ["E"], some _, _ => ({ st with res := none }, "end")
